@@ -432,8 +432,18 @@ func (rl *respDeserializer) getDouble(line string) (value respDouble, valid bool
 	return respDouble(value64), true
 }
 
+// a declared element count is only a hint for preallocation: every element
+// takes at least one byte of input, so never reserve more than what remains
+func (rl *respDeserializer) allocHint(count int) int {
+	remaining := len(rl.content) - rl.pos
+	if count > remaining {
+		return remaining
+	}
+	return count
+}
+
 func (rl *respDeserializer) getNextArray(count int) (value respArray, valid bool) {
-	a := make(respArray, 0, count)
+	a := make(respArray, 0, rl.allocHint(count))
 
 	for i := 0; i < count; i++ {
 		var v respValue
@@ -447,7 +457,7 @@ func (rl *respDeserializer) getNextArray(count int) (value respArray, valid bool
 }
 
 func (rl *respDeserializer) getNextMap(pairs int) (value respMap, valid bool) {
-	m := newRespMapSized(pairs)
+	m := newRespMapSized(rl.allocHint(pairs))
 
 	for i := 0; i < pairs; i++ {
 		var k, v respValue
@@ -466,7 +476,7 @@ func (rl *respDeserializer) getNextMap(pairs int) (value respMap, valid bool) {
 }
 
 func (rl *respDeserializer) getNextAttributeMap(pairs int) (value respAttributeMap, valid bool) {
-	m := make(respAttributeMap, pairs)
+	m := make(respAttributeMap, rl.allocHint(pairs))
 
 	for i := 0; i < pairs; i++ {
 		var k, v respValue
@@ -485,7 +495,7 @@ func (rl *respDeserializer) getNextAttributeMap(pairs int) (value respAttributeM
 }
 
 func (rl *respDeserializer) getNextSet(count int) (value respSet, valid bool) {
-	s := make(respSet, count)
+	s := make(respSet, rl.allocHint(count))
 
 	for i := 0; i < count; i++ {
 		var v respValue
@@ -500,7 +510,7 @@ func (rl *respDeserializer) getNextSet(count int) (value respSet, valid bool) {
 }
 
 func (rl *respDeserializer) getNextPush(count int) (value respPush, valid bool) {
-	a := make([]respValue, 0, count)
+	a := make([]respValue, 0, rl.allocHint(count))
 	p := respPush{}
 
 	var v respValue
